@@ -299,6 +299,8 @@ def placement_rules(ctx):
     body = loops[0].args[1].args
     fb = [(x.args[0], g) for x, g in _with_guards(body) if isinstance(x, App) and x.op == "eff:call" and isinstance(x.args[0], App)
           and x.args[0].op == "meth:frombytes"]
+    if len(fb) == 0:
+        generic.absent(ctx, "slot placement", fi, "frombytes(<padded slot>, base address + offset) per layout entry", "no slot is placed in the image")
     if len(fb) != 1:
         raise AnalysisError(f"{fq}: placement call not recognised")
     call, guards = fb[0]
@@ -410,7 +412,8 @@ def ordering_rules(ctx):
     recv = [e.args[0].args[0] for e in all_effects(outs[0].effects) if isinstance(e, App) and e.op == "eff:call" and isinstance(e.args[0], App)
             and e.args[0].op == "meth:add_envelope"]
     if not recv:
-        raise AnalysisError(f"{fq}: storage object not recognised")
+        generic.absent(ctx, "envelopes added to the storage", fi, "storage.add_envelope(envelope) for every input envelope",
+                       "no envelope reaches the storage image (and none of the rejections can happen)")
     # guards of the whole function select the class: collect (soc literal -> class) from the if-structure
     chosen = {}
     for e, g in _with_guards(outs[0].effects):
